@@ -234,6 +234,7 @@ def run(ctx):
                 if x[0] == "fld" and x[1][0] == "dc" and x[1][1][0] == "call" and "Iterator>::next" in str(x[1][1][1]):
                     itr = x[1][1][2][0]
                     itr = itr[1] if itr[0] == "ref" else itr
+                    itr = an.loop_entry_value(A, itr, head, lb)
                     # forward slice iteration over the argument: into_iter(arg2) | arg2.iter() | into_iter(arg2.iter())
                     while itr[0] == "call" and "IntoIterator" in str(itr[1]) and len(itr[2]) == 1:
                         itr = itr[2][0]
